@@ -24,6 +24,7 @@ From FT Require Proofs.EditSessions Proofs.EditSessionsFull Proofs.EditSessionsA
 From FT Require Gen.UserActions_gen Proofs.UserActionsTie.
 From FT Require Model.Toggle Proofs.EditInit.
 From FT Require Proofs.CoreTieBundle.
+From FT Require Proofs.AnnotatorsTie.
 Import ListNotations.
 Open Scope Z_scope.
 
@@ -190,6 +191,14 @@ Proof. exact EditInit.construct_session_WF. Qed.
 Theorem C08_core_is_generated : FT.Proofs.CoreTieBundle.core_tie_statement.
 Proof. exact FT.Proofs.CoreTieBundle.core_tie. Qed.
 
+(* ---- the two segmentation-derived annotators of the model are, for all arguments, the code translated on every run from the current _regionprops_annotator.py, _edge_annotator.py and _compute_ious.py (Gen/Annotators_gen.v; translator harness/translate_annotators.py, fail closed; combinators Model/PyRt8.v; skimage's regionprops is an oracle of which only WHICH mask of WHICH frame is measured is modelled).  The statements are those of the cited theorems of Proofs/AnnotatorsTie.v ---- *)
+Theorem C08_regionprops_update_is_generated : ltac:(let t := type of @FT.Proofs.AnnotatorsTie.gen_RegionpropsAnnotator_update_eq in exact t).
+Proof. exact @FT.Proofs.AnnotatorsTie.gen_RegionpropsAnnotator_update_eq. Qed.
+
+Theorem C08_regionprops_compute_is_generated : ltac:(let t := type of @FT.Proofs.AnnotatorsTie.gen_RegionpropsAnnotator_compute_eq in exact t).
+Proof. exact @FT.Proofs.AnnotatorsTie.gen_RegionpropsAnnotator_compute_eq. Qed.
+
+
 Example C08_ex0_fresh :
   seg ex0 = Some sg0 /\ rp_fresh ex0 /\ W_seg ex0 /\ nodes_sane ex0 sg0 /\
   ~ In KTime (rp_act (ft ex0)) /\ ~ In KTrack (rp_act (ft ex0)) /\ ~ In KLin (rp_act (ft ex0)) /\
@@ -239,3 +248,5 @@ Print Assumptions C08_run_paint_calls.
 Print Assumptions C08_user_actions_are_generated.
 Print Assumptions C08_sessions_from_construction.
 Print Assumptions C08_core_is_generated.
+Print Assumptions C08_regionprops_update_is_generated.
+Print Assumptions C08_regionprops_compute_is_generated.
